@@ -107,8 +107,9 @@ CHECKS = {
         "text": "Proved: the 4-point Lagrange rule is exact for every cubic in P, so v2p(P_tv)=requested pressures, and returns tabulated values "
                 "at nodes; qha's bisection brackets the target (loop invariant), also on the padded row; cij's range check accepts exactly "
                 "the grids <= P(T,V_last) for every T, for all P_MIN, DELTA_P, NTV; every pressure-base name routes through the same "
-                "(P_tv, p_array). PARTIAL (monitored, not proved): the size of the interpolation error, P(T,V(T,P))=P and V(T,P) decreasing "
-                "for non-polynomial isotherms, checked against a 6-point local reference within the divided-difference bound.",
+                "(P_tv, p_array); P(T,V(T,P))=P exactly and V decreasing whenever V is a polynomial of degree <= 3 in P along the isotherm (c06_volume_roundtrip_cubic; "
+                "P a monotone cubic of V is not enough: c06_roundtrip_inexact_for_cubic_in_V). PARTIAL (monitored, not proved): the size of the interpolation error, P(T,V(T,P))=P and V(T,P) decreasing "
+                "for other isotherms, checked against a 6-point local reference within the divided-difference bound.",
         "note": COMMON_NOTE + "P(T,V) and the volume-base arrays are taken from the real run; the bound is widened x10 in the two outermost grid intervals.",
         "technique": "Lean 4 theorems (functional induction on the bisection, field_simp/ring); Float-run correspondence at 1e-10; numpy-only oracle incl. a v2p call counter for 'rejected before any conversion'",
     },
@@ -125,8 +126,10 @@ CHECKS = {
         "text": "Proved about the model: acyclicity by a rank and termination of the LIFO work-list; queue-level closure invariant (every "
                 "requested key and every dependency gets a task and an edge, edges raise the rank); calculate over any valid order stores spec "
                 "for every task; request independence; the isotropic limit for any orthogonal frames; axis permutation for equivariant frames "
-                "and identically zero c14/c25/c36 for axis-containing frames. PARTIAL: for an arbitrary basis inside the double eigenspace of "
-                "c14/c25/c36 the value depends on the basis (covered by the permutation oracle on the real code only). The real "
+                "and identically zero c14/c25/c36 for axis-containing frames. For an arbitrary basis inside the double eigenspace of c14/c25/c36 the value is given in closed form (c04_degenerate_value) and DOES "
+                "depend on the basis: 0 exactly at axis-containing bases, -1/128 in an explicit 45-degree instance (c04_degenerate_basis_dependent), so the "
+                "relabelling clause is false in the model for such a basis (c04_axis_permutation_fails_for_rotated_basis) and holds on the real code because "
+                "LAPACK returns the coordinate axis (contract DegFrames, measured on every run). The real "
                 "PhononContributionTaskList is driven by a stub calculator; oracles: assembly (completeness, DAG, evaluation order, "
                 "definition values), independence (incl. near-coincident strain fractions), isotropy, six permutations.",
         "note": COMMON_NOTE + "Task equality is a parameter relation assumed to be an equivalence; its float tolerance is read off the real __eq__ on every run. networkx.topological_sort is a parameter (its output is checked to respect the edges).",
@@ -202,7 +205,7 @@ CHECKS = {
                 "solved values, then the identical lower-case block of new components - in the determined and in the ignore_rank "
                 "(minimum-norm) branch (the model's least squares is proved to depend only on the multiset of equations). dtype and NaN "
                 "are outside the model.",
-        "note": COMMON_NOTE + "numpy.linalg.lstsq's numerical rank threshold is replaced by exact rank (inputs keep singular values well separated); the model's own solver result is checked; its elimination is proved complete (finds a solution whenever one exists), existence of a solution of the (AA^T)^2 z = AA^T b system is observed, not proved - the column-order theorem does not need it (success is transported along the permutation).",
+        "note": COMMON_NOTE + "numpy.linalg.lstsq's numerical rank threshold is replaced by exact rank (inputs keep singular values well separated); the model's own solver result is checked; its elimination is proved complete and the system it solves is proved solvable for every rank (lstsq_total, via Mathlib rank_self_mul_transpose), so the model's solver-failure outcome is unreachable (fill_never_solver).",
         "technique": "Lean 4 proofs with a verified kernel-vector decision and checked least-squares certificates + exact-rational correspondence + sympy/Fraction oracle",
     },
     "C13": {
@@ -214,8 +217,8 @@ CHECKS = {
                 "polynomial is unique and invariant under an affine change of abscissa (what another reference volume does to the Eulerian strain, "
                 "proved over R), so fitted static values at corresponding points are unchanged; static column prefix/case/transposed digits give the "
                 "same canonical key and a column permutation gives the same parsed map (or both reads fail). The fit_modulus corollaries of the affine/row-order clause are unconditional (fit_modulus_answers, "
-                "fit_modulus_affine, static_row_perm: the unpivoted Gauss-Jordan solver is proved total on >= order+2 distinct strains). PARTIAL: the equivariance theorem assumes both runs "
-                "return; volume-block order goes through qha/scipy and is metamorphic-only. Metamorphic end-to-end runs of the real Calculator on 12 "
+                "fit_modulus_affine, static_row_perm: the unpivoted Gauss-Jordan solver is proved total on >= order+2 distinct strains). The equivariance theorem is total for bijective re-indexings (interp_perm_equivariant_total: one presentation returns iff the other does; which exception is raised is not presentation-independent, interp_perm_error_may_differ). PARTIAL: "
+                " volume-block order goes through qha/scipy and is metamorphic-only. Metamorphic end-to-end runs of the real Calculator on 12 "
                 "re-presentations per data set (incl. combined column shuffle+respelling, normalised weights, extreme weight factors, composed phonon "
                 "re-presentation) with 'identical to 1e-8 of scale' (volume order: identical or rejected) as oracle.",
         "note": COMMON_NOTE + "Theorems are over R / ordered fields; 'unchanged to rounding' is measured, not proved. qha and scipy are external.",
